@@ -45,6 +45,8 @@ struct Election<'a> {
     socket: &'a mut UdpSocket,
     config: &'a mut Config,
     votes_in_my_favor: usize,
+    /// the round votes are currently being collected for
+    round: u64,
     peers: &'a mut Peers,
     prio: Priority,
 }
@@ -62,6 +64,7 @@ impl<'a> Election<'a> {
             config,
             socket,
             votes_in_my_favor: 0,
+            round: 0,
             peers,
             prio,
         }
@@ -158,6 +161,9 @@ impl<'a> Election<'a> {
             return Ok(ControlFlow::Break(ElectionOutcome::Leader));
         }
 
+        // votes only count for the round they were requested in: an answer to an earlier request
+        // says nothing about whom that peer supports by now
+        self.round = rand::random();
         self.request_votes().await?;
 
         let sleep_span = span!(Level::INFO, "wait_for_votes");
@@ -247,6 +253,13 @@ impl<'a> Election<'a> {
         vote: VoteResponse,
         peers: &mut Vec<String>,
     ) -> Result<Option<ControlFlow<ElectionOutcome>>> {
+        if vote.round != Some(self.round) {
+            info!(
+                "Node '{}' voted for me, but not in this round. Ignoring it.",
+                vote.node_id
+            );
+            return Ok(None);
+        }
         // making sure we don't count votes from any node twice
         if !peers.contains(&vote.node_id) {
             return Ok(None);
@@ -385,6 +398,7 @@ impl<'a> Election<'a> {
         let msg = PeerMessage::Vote(Vote::Request(super::VoteRequest {
             node_id: self.config.node_id.clone(),
             priority: self.prio,
+            round: Some(self.round),
         }));
         let buf = serde_json::to_vec(&msg).expect("PeerMessage not serializeable");
 
